@@ -10,6 +10,7 @@ the quick tier.
 """
 
 import errno
+import re
 import resource
 import warnings
 
@@ -173,6 +174,10 @@ ALLOWED = {
     # a child / grandchild of the (live) object goes away while children()
     # walks the table: it is skipped, the object itself is not "gone"
     "relative-vanish": {"value"},
+    # one thread (not the leader) of the live process exits: open() of its
+    # task/<tid>/ file fails with ENOENT, a read() of the already opened file
+    # with ESRCH; the thread is skipped, the process itself is not "gone"
+    "thread-exit": {"value"},
 }
 
 
@@ -242,6 +247,11 @@ def run_case(case):
             plans.append(("dying", kk, [simk.Fault(kk, "dying", PID)]))
         for kk in target_idx:
             plans.append(("deny", kk, [simk.Fault(kk, "deny", PID, deny_errno(log[kk]))]))
+        for kk in target_idx:
+            tm = re.match(rf"^/proc/{PID}/task/(\d+)/", log[kk].get("path") or "")
+            if tm and int(tm.group(1)) != PID and log[kk]["op"] in ("open", "read"):
+                plans.append(("thread-exit", kk, [simk.Fault(
+                    kk, "esrch" if log[kk]["op"] == "read" else "enoent", PID)]))
         if mname in ("children", "children_recursive"):
             for rel in sorted(q for q in k.procs if q > PID):
                 for kk in range(N):
